@@ -208,6 +208,10 @@ func (s *algoSUT) sample(start, rtt int64, inflight int, drop bool) J {
 	}
 	s.reg.takeSamples()
 	before := s.probeState()
+	jitterBefore := 0.0
+	if s.vegas != nil {
+		_, jitterBefore = s.vegas.VerifProbe()
+	}
 	// app-limited as the property defines it: strictly below half of the (un-truncated) estimate the algorithm holds
 	applim := false
 	switch {
@@ -230,9 +234,9 @@ func (s *algoSUT) sample(start, rtt int64, inflight int, drop bool) J {
 	after := s.probeState()
 	probe := false
 	if s.vegas != nil {
-		probe = after == 0 && before >= 0 && panicked == ""
-		// probeCount is incremented first: a non-probe sample leaves it at before+1
-		probe = after != before+1
+		// a probe (and nothing else) draws a new jitter; forcing the jitter through the accessor happens between samples
+		_, jitterAfter := s.vegas.VerifProbe()
+		probe = jitterAfter != jitterBefore
 	}
 	if s.grad != nil {
 		probe = after > before // the countdown was re-armed
@@ -480,6 +484,21 @@ func TestLimitRandom(t *testing.T) {
 				}
 				i++
 				w.write(J{"ev": "RunEnd", "trace": k, "i": i, "mode": "droprun", "est": est, "n": cnt, "bound": bound, "from": start})
+			}
+		}
+		// a stream of record-low RTTs (every other sample a little faster than anything seen), app-limited so that the estimate
+		// stays put: baseline resets must keep recurring within the bound all the same
+		if s.vegas != nil && cfg.Wrap == "none" && !dead {
+			if cfg.Inc*(est+1) <= 400 {
+				s.vegas.VerifSetProbeJitter(1e-9) // a probe now: the baseline becomes this sample's RTT, high enough to descend from
+				rtt := int64(100000)
+				emit("records", rtt, 0, false)
+				for j, nrec := 0, 3*cfg.Inc*(est+1); j < nrec && !dead && rtt > 2; j++ {
+					if j%2 == 0 {
+						rtt--
+					}
+					emit("records", rtt, 0, false)
+				}
 			}
 		}
 		// sustained overload without drops: saturated samples at a multiple of the RTT seen so far pin the estimate on its
